@@ -22,7 +22,7 @@ static const char *KN[MAXG + 1][MAXK] = { { "x0", "y0" }, { "x1", "y1" }, { "x2"
 static const char *VN[MAXG + 1][MAXK] = { { "a0", "b0" }, { "a1", "b1" }, { "a2", "b2" } };
 
 /* ---- log of what was printed ---------------------------------------------- */
-enum { P_GROUP = 1, P_KEY, P_VAL, P_VALN, P_BLANK, P_OTHER };
+enum { P_GROUP = 1, P_KEY, P_VAL, P_VALN, P_BLANK, P_OTHER, P_GROUP_EMPTY };
 #define PMAX 120
 int pr_n, pr_kind[PMAX];
 char pr_c0[PMAX], pr_c1[PMAX];   /* first two bytes of the %s argument at print time */
@@ -37,6 +37,7 @@ int verif_printf(const char *fmt, struct varg a, struct varg b, struct varg c)
   else if (!strcmp(fmt, "%s = ")) k = P_KEY;
   else if (!strcmp(fmt, "     %s\n")) k = P_VALN;
   else if (!strcmp(fmt, "\n")) k = P_BLANK;
+  else if (!strcmp(fmt, "%s\n\n")) k = P_GROUP_EMPTY;          /* a section without keys */
   __CPROVER_assert(pr_n < PMAX, "econftool harness: print log large enough");
   if (pr_n < PMAX) { pr_kind[pr_n] = k; pr_c0[pr_n] = s ? s[0] : 0; pr_c1[pr_n] = (s && s[0]) ? s[1] : 0; pr_n++; }
   return 1;
@@ -131,7 +132,6 @@ int main(void)
   for (int g = 0; g <= MAXG; g++) {
     in_nkeys[g] = nondet_int();
     __CPROVER_assume(in_nkeys[g] >= 0 && in_nkeys[g] <= MAXK);
-    if (g >= 1 && g <= in_ngroups) __CPROVER_assume(in_nkeys[g] >= 1);   /* a listed section has keys */
   }
   in_nogroup_code = nondet_bool();
   api_ret = nondet_code(); __CPROVER_assume(api_ret >= ECONF_SUCCESS && api_ret <= ECONF_VALUE_CONVERSION_ERROR);
@@ -158,6 +158,12 @@ int main(void)
     for (int g = 0; g <= MAXG; g++) {
       if (g > in_ngroups) break;
       if (g == 0 && in_nkeys[0] == 0) continue;
+      if (g >= 1 && in_nkeys[g] == 0) {
+        /* a header without keys is a listed section too (econf_getKeys answers not-found for it) */
+        __CPROVER_assert(t < pr_n && pr_kind[t] == P_GROUP_EMPTY && pr_c0[t] == GN[g][0], "C19: a section without keys is printed and the listing goes on");
+        t++;
+        continue;
+      }
       if (g >= 1) {
         __CPROVER_assert(t < pr_n && pr_kind[t] == P_GROUP && pr_c0[t] == GN[g][0], "C19: every section is printed, in order");
         t++;
